@@ -53,6 +53,8 @@ func configure(sw int) func() {
 	}
 }
 
+type namedS string
+
 type inner struct {
 	S size.Size `json:"s"`
 }
@@ -110,6 +112,15 @@ func judge(c Case, w *vkit.W) {
 			w.Fail(c, "json-round-trip", fmt.Sprintf("Size(%d): MarshalJSON = %q, UnmarshalJSON -> %d, %v (switches %03b)", c.S, js, uint64(back), err, c.Switches))
 		}
 		w.RetainBytes(c, "MarshalJSON", js, string(js))
+		if c.S%8 == 5 || c.Containers || c.S < 32 {
+			// the marshalled forms as a program holds them before decoding: json.RawMessage (a named []byte) and named strings
+			if got, err := size.DefaultParser(json.RawMessage(w.Scratch(string(js))), size.DefaultRule); err != nil || got != s {
+				w.Fail(c, "json-round-trip", fmt.Sprintf("Size(%d): MarshalJSON = %q, DefaultParser[json.RawMessage] under the default rule -> %d, %v (switches %03b)", c.S, js, uint64(got), err, c.Switches))
+			}
+			if got, err := size.DefaultParser(namedS(js), size.DefaultRule); err != nil || got != s {
+				w.Fail(c, "json-round-trip", fmt.Sprintf("Size(%d): MarshalJSON = %q, DefaultParser[named string] under the default rule -> %d, %v (switches %03b)", c.S, js, uint64(got), err, c.Switches))
+			}
+		}
 		if c.S%4 == 1 || c.S < 64 || c.Containers { // the returned bytes belong to the caller
 			if js2, err := s.MarshalJSON(); err == nil {
 				w.Owned(c, "MarshalJSON", js2, string(js), s.MarshalJSON)
